@@ -51,6 +51,23 @@ class Kafka(Scenario):
             self.broker.fail_committed = 1
         if "wm0" in opts:
             self.broker.fail_watermark = (0,)
+        if "sentinel" in opts:
+            # (used by C19) the process-wide background loop is replaced by a stand-in that reports every use: an
+            # asynchronous pipeline bound to the caller's loop must never touch it
+            import streamz.core as sc
+            scen = self
+
+            class Shared:
+                asyncio_loop = scen.loop
+
+                def add_callback(self, cb, *a, **k):
+                    scen.violations.append(Violation("callback-on-foreign-loop", "from_kafka_batched", "asynchronous-true",
+                                                     dict(scheduled_on="background", component_loop="current", callback=repr(cb)[:80])))
+                    return scen.ioloop.add_callback(cb, *a, **k)
+
+                def __getattr__(self, k):
+                    return getattr(scen.ioloop, k)
+            sc._io_loops[:] = [Shared()]
         fk.install(self.broker)
         self._install_clock()
         for part, off in p.get("committed", ()):
